@@ -3,8 +3,9 @@ operation hook (scheduling point / crash point).
 
 Model (conformance-checked against the real OS in pmc.props.envconf):
 * open(path,'a'|'w') creates the file at once ('w' truncates); text written is buffered in the handle and
-  becomes visible as ONE append when the handle is flushed/closed (a text larger than
-  io.DEFAULT_BUFFER_SIZE becomes visible in two steps: see WriteHandle._commit);
+  becomes visible as ONE append when the handle is flushed/closed, or earlier - still as one append of everything
+  pending - as soon as the pending bytes exceed io.DEFAULT_BUFFER_SIZE (what CPython's text layer does);
+  concurrent 'w' writers are modelled as appenders (panoptica only appends);
 * open(path,'r') fails if absent; the content is taken at the first read;
 * a crash discards all unflushed handle buffers; after a crash every operation is a no-op (the process is
   gone), so `with` blocks unwinding because of the Crash exception cannot touch the file system.
@@ -46,6 +47,7 @@ class FS:
 
 fs = FS()
 on_op = None  # callable(kind:str, detail) ; may block (scheduler) or raise Crash
+on_read = None  # callable(path, content): what a reader observed (part of the explorer's state key)
 
 
 def reset(files: dict | None = None, dirs=()):
@@ -103,6 +105,7 @@ class WriteHandle(io.TextIOBase):
     def __init__(self, path, mode):
         self._path = path
         self._buf: list[str] = []
+        self._pending = 0
         self._dead = False
         self._closed = False
         self.mode = mode
@@ -118,25 +121,24 @@ class WriteHandle(io.TextIOBase):
         if not isinstance(s, str):
             raise TypeError("write() argument must be str")
         self._buf.append(s)
+        self._pending += len(s.encode("utf8"))
+        # CPython's text layer hands everything pending to the OS in ONE write(2) as soon as the pending bytes exceed its
+        # chunk size (measured with strace on CPython 3.12: a 9000-byte row is one write at writerow() time, never torn)
+        if self._pending > io.DEFAULT_BUFFER_SIZE:
+            self._commit()
         return len(s)
 
     def _commit(self):
         if self._dead or not self._buf:
             self._buf = []
+            self._pending = 0
             return
         data = "".join(self._buf)
         self._buf = []
-        # one write(2) per flush; a text that exceeds the buffer is handed to the OS in two calls:
-        # measured with strace on CPython 3.12 (envconf): the first DEFAULT_BUFFER_SIZE-aligned part when
-        # the text layer overflows, the rest at close.
-        chunks = [data]
-        nbytes = len(data.encode("utf8"))
-        if nbytes > io.DEFAULT_BUFFER_SIZE:
-            chunks = _split_like_cpython(data)
-        for c in chunks:
-            if not op("write", self._path):
-                return
-            fs.files[self._path] = fs.files.get(self._path, "") + c
+        self._pending = 0
+        if not op("write", self._path):
+            return
+        fs.files[self._path] = fs.files.get(self._path, "") + data
 
     def flush(self):
         if not self._closed:
@@ -164,18 +166,6 @@ class WriteHandle(io.TextIOBase):
         return False
 
 
-def _split_like_cpython(data: str):
-    """How CPython's TextIOWrapper+BufferedWriter hand a single large write + close to the OS.
-    Conformance-checked with strace in envconf; conservative: two pieces."""
-    b = data.encode("utf8")
-    k = io.DEFAULT_BUFFER_SIZE
-    first = b[:k]
-    # do not split inside a multi-byte sequence
-    while k > 0 and (b[k] & 0xC0) == 0x80:
-        k -= 1
-    return [b[:k].decode("utf8"), b[k:].decode("utf8")]
-
-
 class ReadHandle(io.TextIOBase):
     def __init__(self, path):
         self._path = path
@@ -190,7 +180,10 @@ class ReadHandle(io.TextIOBase):
     def _load(self):
         if self._sio is None:
             op("read", self._path)
-            self._sio = io.StringIO(fs.files.get(self._path, ""), newline="")
+            content = fs.files.get(self._path, "")
+            if on_read is not None:
+                on_read(self._path, content)
+            self._sio = io.StringIO(content, newline="")
         return self._sio
 
     def read(self, n=-1):
@@ -246,6 +239,8 @@ def vfs_open(file, mode="r", *a, **k):
         if p not in fs.files:
             raise _enoent(p)
         op("read", p)
+        if on_read is not None:
+            on_read(p, fs.files[p])
         return io.BytesIO(fs.files[p].encode("utf8"))
     op("open", p)
     if fs.crashed:
